@@ -9,6 +9,7 @@ pub mod opclass_data;
 pub mod opclass_endpoint;
 pub mod opclass_recovery;
 pub mod opclass_wire;
+pub mod opclass_keyupd;
 pub mod scen_dgram;
 pub mod scen_gate;
 pub mod scen_multi;
